@@ -2,6 +2,8 @@ import GoflowModel.Basic.Dec
 import GoflowModel.Basic.DateText
 import GoflowModel.Engine.Determinism
 import GoflowModel.Engine.Concurrent
+import GoflowModel.Engine.Redaction
+import GoflowModel.Gen.Consts
 import GoflowModel.Driver.Util
 /-
   numrender <coefficient> <exponent>        →  ok <hex text>
@@ -10,6 +12,8 @@ import GoflowModel.Driver.Util
   dtiso y m d h mi s nanos offMin           →  ok <hex text>
   dtparse <ymd|mdy|dmy> <currentYear> <hex> →  ok y m d h mi s nanos | iso y m d h mi s nanos offMin | err
   timeparse <hex>                           →  ok h mi s nanos | err
+  cqlredact <hex property> <value empty 01>  →  accept | reject-redacted                  (VisitCondition under the urns policy)
+  ctxview <redact01> <hex name> <id> <urns> <sendable schemes>  →  default=… urn=… urns=… by=…   (Contact.Context)
   objget <hex names,…> <hex key>            →  ok <index of the property found> | none   (XObject.Get)
   objprops <hex names,…>                    →  ok <hex names sorted>                      (XObject.Properties)
 -/
@@ -88,6 +92,36 @@ def handle : List String → Option String
     let ns ← (if names == "-" then some [] else (names.splitOn ",").mapM decL)
     let sorted := Determinism.collectSorted (fun a b => decide (a ≤ b)) id (ns.map String.ofList)
     some ("ok " ++ ",".intercalate (sorted.map fun s => encL s.toList))
+  | ["cqlredact", prop, empty] => do
+    let p := String.ofList (← decL prop)
+    let kind : Redaction.PropKind :=
+      if p == "urn" then .attrURN
+      else if p.startsWith "urns." then .urnsPrefix
+      else if Gen.Consts.urnSchemes.contains p then .scheme
+      else .other
+    some (if Redaction.rejectsRedacted true kind (empty == "1") then "reject-redacted" else "accept")
+  | ["ctxview", redact, name, id, urnsS, sendable] => do
+    -- urns: scheme~path~display~channel ("-" = none), comma separated, "_" = no URNs; sendable: schemes a channel can send to
+    let parseURN (t : String) : Option Redaction.URN :=
+      match t.splitOn "~" with
+      | [a, b, c, d] => do some ⟨← a.toNat?, ← b.toNat?, ← c.toNat?, ← (if d == "-" then some none else d.toNat?.map some)⟩
+      | _ => none
+    let us ← (if urnsS == "_" then some [] else (urnsS.splitOn ",").mapM parseURN)
+    let snd ← (if sendable == "_" then some [] else (sendable.splitOn ",").mapM (·.toNat?))
+    let c : Redaction.Contact := ⟨← decL name, ← id.toNat?, us, 0⟩
+    let cx := Redaction.contactCtx (redact == "1") (fun s _ => snd.contains s) c
+    let showV (v : Redaction.URNView) : String :=
+      match v.clear with
+      | none => s!"{v.scheme}:*"
+      | some (p, d) => s!"{v.scheme}:{p}~{d}"
+    let showO (o : Option Redaction.URNView) : String := match o with | none => "-" | some v => showV v
+    let dflt := match cx.default with
+      | .name n => "name:" ++ encL n
+      | .id n => s!"id:{n}"
+      | .urn p => s!"urn:{p}"
+      | .nothing => "nothing"
+    let schemes := (us.map (·.scheme)).eraseDups
+    some s!"default={dflt} urn={showO cx.urn} urns={",".intercalate (cx.urns.map showV)} by={",".intercalate (schemes.map fun sc => showO (cx.byScheme sc))}"
   | ["cacheseq", keys] => do
     -- each request is a thread that runs alone to completion (lock, look/load, store+unlock); key 9 does not exist
     let ks ← (keys.splitOn ",").mapM (·.toNat?)
